@@ -530,3 +530,16 @@ func runTimerCallback(f func()) bool {
 // FiresChecked returns the number of timer callbacks that have already performed their first
 // synchronisation operation, i.e. whose expiry check has begun (executor only).
 func FiresChecked() int { return 0 }
+
+// jsonUnmarshal is what the executor runs in place of json.Unmarshal: the same uninterpreted parser, with neither
+// UseNumber nor DisallowUnknownFields (Unmarshal cannot apply them).
+func jsonUnmarshal(data []byte, v interface{}) error {
+	obj, ok := jsonParse(data, false, false)
+	if !ok {
+		return errJSON
+	}
+	if p, isMap := v.(*map[string]interface{}); isMap {
+		*p = obj
+	}
+	return nil
+}
